@@ -355,6 +355,16 @@ def run(ctx):
         inp = dict(op='getitem', cls=cls, L=L, nchan=nchan, align=al, cf=str(cf), bw=str(bw), index=repr(pyindex), started=start is not None)
         ctx.seen(inp, nontrivial=len(index) >= 2)
         ctx.count('getitem')
+        if cls == 'FullStokesSignal' and isinstance(pyindex, str):
+            # a bare string on a FullStokesSignal is a component name (the pinned FullStokesSignal.__getitem__): an unknown one is KeyError
+            try:
+                z[pyindex]
+                ctx.fail('unknown_stokes_component_accepted', inp)
+            except KeyError:
+                ctx.count('getitem_stokes_keyerror')
+            except Exception as e:
+                ctx.fail('unknown_stokes_component_wrong_error', inp, impl=repr(e))
+            continue
         y, outcome, exc = None, 0, None
         try:
             y = z[pyindex]
